@@ -1,4 +1,5 @@
 import Rangers.Proofs.MinerToy
+import Rangers.Proofs.MinerTx
 /-!
 # C20 — miner registry and stake accounting agree with the applied miner transactions
 
@@ -126,5 +127,77 @@ theorem lookup_agree_counterexample : ¬ FullStatementLookup := by
   have he : iter toyCfg (run toyCfg funded [.tx tApply11]) .val = [] := by decide
   rw [he] at this
   cases this
+
+/-! ## an account controls at most one miner -/
+
+/-- The clause as stated, over every reachable state. -/
+def FullStatementOnePerAccount : Prop :=
+  ∀ cfg st, CodecId cfg → RawOK cfg → Reachable cfg st →
+    ∀ d1 d2 id1 id2 m1 m2, getMinerById cfg st d1 id1 = some m1 → getMinerById cfg st d2 id2 = some m2 →
+      m1.account = m2.account → id1 = id2
+
+/-- False of the code: two applications with the same account in ONE block both succeed, because the
+    uniqueness check iterates the storage trie, which has not yet received the first one. The two miners
+    stay registered after the block end. -/
+theorem one_miner_per_account_counterexample : ¬ FullStatementOnePerAccount := by
+  intro h
+  let ops : List Op := [.tx tApply11, .tx tApply22, .endBlock 101]
+  have hr : Reachable toyCfg (run toyCfg funded ops) :=
+    ⟨100, _, ops, by
+      intro o ho
+      simp only [ops, List.mem_cons, List.not_mem_nil, or_false] at ho
+      rcases ho with rfl | rfl | rfl
+      · exact ⟨by decide, by decide⟩
+      · exact ⟨by decide, by decide⟩
+      · trivial, rfl⟩
+  obtain ⟨m1, hm1⟩ : ∃ m, getMinerById toyCfg (run toyCfg funded ops) .val [0x11] = some m :=
+    Option.isSome_iff_exists.mp (by decide)
+  obtain ⟨m2, hm2⟩ : ∃ m, getMinerById toyCfg (run toyCfg funded ops) .val [0x22] = some m :=
+    Option.isSome_iff_exists.mp (by decide)
+  have hacc : m1.account = m2.account := by
+    have e1 : (getMinerById toyCfg (run toyCfg funded ops) .val [0x11]).map (·.account) = some addr1 := by decide
+    have e2 : (getMinerById toyCfg (run toyCfg funded ops) .val [0x22]).map (·.account) = some addr1 := by decide
+    rw [hm1] at e1; rw [hm2] at e2
+    simp only [Option.map_some, Option.some.injEq] at e1 e2
+    rw [e1, e2]
+  have := h toyCfg _ toy_codecId toy_rawOK hr .val .val [0x11] [0x22] m1 m2 hm1 hm2 hacc
+  exact absurd this (by decide)
+
+/-- What does hold: against a *committed* registry (block boundary) the check is effective — an
+    application whose (effective) account already controls a registered miner is never accepted. -/
+theorem one_miner_per_account_partial_apply (cfg : Cfg) (st : State) (d : DbId) (id0 : Bytes) (m : Miner)
+    (hd : d = .val ∨ d = .prop) (hf : Flushed st) (hr : RecKeyed cfg st) (hm : getMinerById cfg st d id0 = some m)
+    (src id : Bytes) (typ stake : Nat) (acct pk vrf : Bytes)
+    (hacc : (if isEmptySlice acct then src else acct) = m.account) :
+    (runTx cfg st (.apply src id typ stake acct pk vrf)).1 ≠ "ok" := by
+  intro hok
+  obtain ⟨st1, hfee, hex, _⟩ := runTx_ok cfg st _ hok
+  have hl := processFee_live st st1 _ hfee
+  simp only [execute] at hex
+  obtain ⟨_, _, heq⟩ := execApply_ok cfg st1 src id typ stake acct pk vrf hex
+  rw [heq] at hex
+  have hno := (addMiner_ok cfg st1 _ _ _ _ hex).2.2.2
+  rw [byAccount_congr cfg st st1 hl.1 hl.2.1, hacc] at hno
+  have := lookup_agree_partial_id_account cfg st d id0 m hd hf hr hm
+  rw [hno] at this
+  cases this
+
+/-- Likewise for a change of account to an occupied account. -/
+theorem one_miner_per_account_partial_chacc (cfg : Cfg) (st : State) (d : DbId) (id0 : Bytes) (m : Miner)
+    (hd : d = .val ∨ d = .prop) (hf : Flushed st) (hr : RecKeyed cfg st) (hm : getMinerById cfg st d id0 = some m)
+    (src id : Bytes) : (runTx cfg st (.chacc src id m.account)).1 ≠ "ok" := by
+  intro hok
+  obtain ⟨st1, hfee, hex, _⟩ := runTx_ok cfg st _ hok
+  have hl := processFee_live st st1 _ hfee
+  simp only [execute] at hex
+  obtain ⟨_, _, _, _, hno, _⟩ := execChacc_ok cfg st1 src id m.account hex
+  rw [byAccount_congr cfg st st1 hl.1 hl.2.1] at hno
+  have := lookup_agree_partial_id_account cfg st d id0 m hd hf hr hm
+  rw [hno] at this
+  cases this
+
+/-- Non-vacuity of the two theorems: a committed state with a registered miner, and the second
+    application with the same account is indeed rejected there. -/
+example : (runTx toyCfg (run toyCfg funded [.tx tApply11, .endBlock 101]) tApply22).1 = "fail:acctexists" := by decide
 
 end Rangers.Props.C20
